@@ -395,3 +395,16 @@ package allocation
 //@   at-call (*Manager).DeleteAllocation assert [C04,C15:own-tuple] recv == manager && arg0 == a.fiveTuple
 //@   loop 0 invariant listenReady(a, manager)
 //@   loop 0 invariant allocOf(manager, a.fiveTuple.SrcAddr, a.fiveTuple.DstAddr, int(a.fiveTuple.Protocol)) != nil ==> closeReady(allocOf(manager, a.fiveTuple.SrcAddr, a.fiveTuple.DstAddr, int(a.fiveTuple.Protocol)))
+
+//@      // ---- C18: lock discipline of the remaining lock-taking functions of this package (`lockonly`: only lock
+//@      // balance / unlock-of-held / no-self-deadlock / lock order obligations are generated for these bodies)
+//@ func (*Manager).AllocationCount
+//@   lockonly
+//@ func (*Manager).Close
+//@   lockonly
+//@ func (*Manager).CreateReservation
+//@   lockonly
+//@ func (*Manager).CreateReservation$1
+//@   lockonly
+//@ func (*Manager).RemoveTCPConnection
+//@   lockonly
